@@ -1,16 +1,20 @@
 #!/bin/bash
-# Brings the scratch snapshot /tmp/verif_snap (a git worktree of /verif used to evaluate seeded changes) to
-# /verif's HEAD and points its harness at the scratch worktree /tmp/evalwt/repo of /repo (at /repo's HEAD),
-# so that seeded changes are applied there and /repo itself stays untouched.
+# usage: snap_sync.sh [suffix]
+# Brings the scratch snapshot /tmp/verif_snap<suffix> (a git worktree of /verif used to evaluate seeded
+# changes) to /verif's HEAD and points its harness at the scratch worktree /tmp/evalwt<suffix>/repo of /repo
+# (at /repo's HEAD), so that seeded changes are applied there and /repo itself stays untouched.
 set -e
-[ -d /tmp/verif_snap ] || git -C /verif worktree add --detach /tmp/verif_snap HEAD >/dev/null
-git -C /tmp/verif_snap checkout -q -- . 
-git -C /tmp/verif_snap checkout -q --detach "$(git -C /verif rev-parse HEAD)"
-[ -d /tmp/evalwt/repo ] || { mkdir -p /tmp/evalwt; git -C /repo worktree add --detach /tmp/evalwt/repo HEAD >/dev/null; }
-git -C /tmp/evalwt/repo checkout -q -- .
-git -C /tmp/evalwt/repo checkout -q --detach "$(git -C /repo rev-parse HEAD)"
-cd /tmp/verif_snap
-sed -i 's#path = "/repo"#path = "/tmp/evalwt/repo"#; s#path = "/repo/cpp"#path = "/tmp/evalwt/repo/cpp"#' harness/Cargo.toml cpp/rt/Cargo.toml
-sed -i 's#-I/repo/cpp/include#-I/tmp/evalwt/repo/cpp/include#' cpp/run.py
+S="$1"
+SNAP=/tmp/verif_snap$S
+EV=/tmp/evalwt$S/repo
+[ -d $SNAP ] || git -C /verif worktree add --detach $SNAP HEAD >/dev/null
+git -C $SNAP checkout -q -- . 
+git -C $SNAP checkout -q --detach "$(git -C /verif rev-parse HEAD)"
+[ -d $EV ] || { mkdir -p /tmp/evalwt$S; git -C /repo worktree add --detach $EV HEAD >/dev/null; }
+git -C $EV checkout -q -- .
+git -C $EV checkout -q --detach "$(git -C /repo rev-parse HEAD)"
+cd $SNAP
+sed -i "s#path = \"/repo\"#path = \"$EV\"#; s#path = \"/repo/cpp\"#path = \"$EV/cpp\"#" harness/Cargo.toml cpp/rt/Cargo.toml
+sed -i "s#-I/repo/cpp/include#-I$EV/cpp/include#" cpp/run.py
 [ -d .build ] || cp -r /verif/.build .build
-echo "snapshot at $(git rev-parse --short HEAD), eval repo at $(git -C /tmp/evalwt/repo rev-parse --short HEAD)"
+echo "snapshot $SNAP at $(git rev-parse --short HEAD), eval repo $EV at $(git -C $EV rev-parse --short HEAD)"
